@@ -35,11 +35,11 @@ ASSUMPTIONS = [
 ]
 PARTIAL = [
     'matmul_elem_eq_sum covers view::matmul for operand ranks >= 2 only: with a 1-d operand the unchanged view throws / is undefined (known finding matmul.v1-1d-operand, matmul_v1_1d_counterexample); matmulv2_eq_def covers all ranks >= 1',
-    'trace_eq_def covers every offset with a non-empty diagonal (-extent(axis1) < offset < extent(axis2), repaired index::diagonal); empty diagonals still fail in the reduction over a zero-length axis (known finding trace.empty-diagonal, no model)',
+    'trace_eq_def covers every offset with a non-empty diagonal (-extent(axis1) < offset < extent(axis2), repaired index::diagonal); empty diagonals (sum over a zero-length axis = 0 since fix commit 10b33c2) are compared with NumPy only here; the Lean statement for every offset is trace_eq_sum_diag_any_offset of C08',
 ]
 MANIFEST = dict(
     text='Proof: 18 Lean theorems over a symbolic term-list model (for every destination index the ordered list of (lhs index, rhs index) products a routine sums): index::shape_matmul = NumPy rule on all pairs (isSome iff accepted); view::matmul (ranks >= 2) and view::matmulv2 (all ranks >= 1, batch broadcasting, 1-d promotion) sum exactly a[..,i,k]*b[..,k,j], k in order; dot, inner, outer, vecdot, tensordot (integer and explicit axes, negative spellings), kron (incl. the closed form of kron_dst_transpose for all ranks), trace (offsets of either sign, non-empty diagonal) equal their NumPy definitions for every rank/extent. Tied to the C++ on every run by a differential run of all eight routines (element access and eval) + pipeline shape helpers against the model and against NumPy.',
-    note='Lean kernel + propext/Classical.choice/Quot.sound; hand-written model (view combinators reshape/tile/transpose/broadcast-multiply/sum mirrored from the headers), fidelity rests on the correspondence run; broadcast_to index map taken in per-axis form (C06); dynamic-shape arrays only (static/bounded kinds in C09/C11); 2 genuine defects remain known findings (view::matmul with a 1-d operand, trace over an empty diagonal); the negative-offset defect of index::diagonal is repaired in /repo and modelled as repaired.',
+    note='Lean kernel + propext/Classical.choice/Quot.sound; hand-written model (view combinators reshape/tile/transpose/broadcast-multiply/sum mirrored from the headers), fidelity rests on the correspondence run; broadcast_to index map taken in per-axis form (C06); dynamic-shape arrays only (static/bounded kinds in C09/C11); 1 genuine defect remains a known finding (view::matmul with a 1-d operand); trace over an empty diagonal is repaired in /repo (fix 10b33c2); the negative-offset defect of index::diagonal is repaired in /repo and modelled as repaired.',
     technique='Lean 4 proofs over symbolic term lists (which (lhs index, rhs index) pairs are summed, in order) for every rank/extent + differential correspondence against the real views (element access and eval) + NumPy oracle')
 
 
@@ -254,7 +254,7 @@ def _gen(tier, rng):
     def _empty(t):
         s, off, a1, a2 = t
         return (off >= 0 and s[a2] - off <= 0) or (off < 0 and s[a1] + off <= 0)
-    # an empty diagonal kills the harness process (SIGFPE) and costs a restart each: keep a bounded sample of those
+    # empty diagonals (class of the repaired defect trace.empty-diagonal): a bounded sample
     tr = [t for t in tr if not _empty(t)] + stride_pick([t for t in tr if _empty(t)], 80 if quick else 300)
     if not quick:
         tr = stride_pick(tr, 12000)
@@ -268,7 +268,7 @@ def _gen(tier, rng):
         empty = (off >= 0 and n2 - off <= 0) or (off < 0 and n1 + off <= 0)
         neg = off < 0
         tags = ['trace', 'offset<0' if neg else ('offset>0' if off > 0 else 'offset=0')] + (['empty-diagonal'] if empty else []) + (['negative-axis'] if k % 4 in (0, 2) else [])
-        # empty diagonal: reduce over nothing (SIGFPE in the harness) — no model, NumPy (0) judges
+        # empty diagonal: sum over nothing = 0 (repaired defect trace.empty-diagonal, fix 10b33c2) — no C16 model, NumPy (0) judges
         yield Case('trace a=%s offset=%d axis1=%d axis2=%d data=%s' % (fmt(s), off, x1, x2, m), 'h_c16_td', oracle=orc,
                    dom=not empty, model=not empty, nontrivial=(min(n1, n2) > 1), tags=tags)
 
